@@ -374,47 +374,67 @@ def check_moved(ck, fn):
 
 
 def check_copy_loop(ck, fn, tu=None):
+    """COPY-ELEMENTS: the copy constructor / copy assignment is evaluated on its skeleton for a source of n = 0..3 elements
+    (both outcomes of every data-dependent branch): it must push_back(rb[0]) ... push_back(rb[n-1]) in this order, and the
+    assignment must clear() before it resets its cursors"""
+    from engine import skel
     rb = fn.params[0]["did"]
-    loops = [l for l in match.loops_in(fn.body)]
-    host = fn
-    if not loops and tu is not None:
-        # the loop may live in a private helper that receives the source buffer
-        for c in this_calls(fn, None):
-            cal = tu.by_did.get(c["callee"]["did"])
-            args = kids(c)[1:]
-            if cal is None or cal.body is None or len(args) != 1 or ref_of(args[0]) != rb or len(cal.params) != 1:
-                continue
-            hl = [l for l in match.loops_in(cal.body)]
-            if len(hl) == 1:
-                loops, rb, host = hl, cal.params[0]["did"], cal
-                break
-    ck.require(len(loops) == 1, "%s: one copy loop expected" % fn.loc)
-    init, cond, inc, body = match.loop_parts(loops[0])
-    var = None
-    for x in ir.walk(init):
-        if x["k"] == "VarDecl":
-            var = x["did"]
-            lo = const_int(kids(x)[0])
-    b = match.binop(cond, ("<", "!="))
-    okc = bool(b and ref_of(b[1]) == var and match.call_named(b[2], ("size",)) and ref_of(kids(strip_casts(b[2]))[0]) == rb and lo == 0)
-    pb = [x for x in ir.walk(body) if "callee" in x and x["callee"]["name"] in ("push_back", "emplace_back")]
-    oke = False
-    if len(pb) == 1:
-        arg = kids(pb[0])[-1]
-        p = match.index_parts(arg)
-        oke = bool(p and ref_of(p[0]) == rb and ref_of(p[1]) == var)
-    # reset of own cursors before refilling (assignment only)
-    if not (okc and oke):
-        ck.violation("COPY-ELEMENTS", fn.qname, "loop", "copy does not push_back(rb[i]) for every i in [0, rb.size())", host.nloc(loops[0]))
+    bad = None
+    for n in range(4):
+        for choice in (True, False):
+            pushed = []
+
+            def event(e, sk, n=n):
+                if "callee" in e and e.get("member_call") and kids(e):
+                    obj = strip_casts(kids(e)[0])
+                    nm = e["callee"]["name"]
+                    if ref_of(obj) == rb or sk.lvalue(obj) == rb:
+                        if nm in ("size",):
+                            return n
+                        if nm == "empty":
+                            return n == 0
+                        if nm in ("operator[]", "at") and len(kids(e)) == 2:
+                            i_ = sk.ev(kids(e)[1])
+                            return ("RB", i_) if isinstance(i_, int) else ("RB", "?")
+                        return None
+                    if obj["k"] == "This":
+                        if nm in ("push_back", "emplace_back") and len(kids(e)) == 2:
+                            pushed.append(sk.ev(kids(e)[1]))
+                            return None
+                        cal = sk.tu.by_did.get(e["callee"].get("did")) if sk.tu is not None else None
+                        if cal is not None and any("callee" in y and y["callee"]["name"] in ("push_back", "emplace_back") for y in cal.nodes()):
+                            return NotImplemented          # a helper that may hold the loop: let the skeleton enter it
+                        return None                        # clear(), allocate(), ...: no element is copied there
+                if e["k"] == "CXXOperatorCallExpr" and e.get("op") == "[]" and len(kids(e)) == 2 and (ref_of(kids(e)[0]) == rb or sk.lvalue(kids(e)[0]) == rb):
+                    i_ = sk.ev(kids(e)[1])
+                    return ("RB", i_) if isinstance(i_, int) else ("RB", "?")
+                if e["k"] in ("BinaryOperator",) and e.get("op") in ("==", "!=") and any(strip_casts(x)["k"] == "This" for x in kids(e)):
+                    return e["op"] == "!="                 # this != &rb
+                return NotImplemented
+            sk = skel.Skel(fn, {}, None, event, max_iter=16)
+            sk.unknown_cond = lambda c, sk_, choice=choice: choice
+            try:
+                sk.run(kids(fn.body))
+            except skel.Return:
+                pass
+            want = [("RB", i) for i in range(n)]
+            if pushed != want and bad is None:
+                bad = (n, pushed)
+    if bad:
+        n, pushed = bad
+        ck.violation("COPY-ELEMENTS", fn.qname, "loop", "copy does not push_back(rb[i]) for every i in [0, rb.size()): a source of %d elements yields %s"
+                     % (n, [("rb[%s]" % p[1]) if isinstance(p, tuple) and p and p[0] == "RB" else "?" for p in pushed]), fn.loc)
         return
     if fn.kind != "ctor":
         g = cfgm.CFG(fn)
         w = [x for x in ir.walk(fn.body) if match.binop(x, ("=",)) and match.this_field(match.binop(x, ("=",))[1]) in ("begin_", "end_")]
         cl = this_calls(fn, ("clear",))
-        if not cl or not all(g.dominates(g.pos(cl[0]), g.pos(x)) for x in w if g.pos(x)):
+        if not cl:
+            raise dtable.Undecidable("%s: clear() of the old contents not found" % fn.loc)
+        if not all(g.dominates(g.pos(cl[0]), g.pos_deep(x)) for x in w if g.pos_deep(x)):
             ck.violation("COPY-ELEMENTS", fn.qname, "reset-before-clear", "cursors are reset before the old elements were destroyed", fn.loc)
             return
-    ck.ok("COPY-ELEMENTS", fn.qname + ("(copy-ctor)" if fn.kind == "ctor" else "(copy-assign)"), "push_back(rb[i]) for i in [0, rb.size())")
+    ck.ok("COPY-ELEMENTS", fn.qname + ("(copy-ctor)" if fn.kind == "ctor" else "(copy-assign)"), "push_back(rb[i]) for i in [0, rb.size()), sources of 0..3 elements")
 
 
 def check_cursor_reset(ck, fn):
@@ -604,12 +624,59 @@ def check_sv_modes(ck, tu):
                           (y["k"] in ("BinaryOperator", "CompoundAssignOperator") and match.binop(y, ("=", "+=", "-=")) and ref_of(match.binop(y, ("=", "+=", "-="))[1]) == var)]
                     inside = {y["id"] for y in ir.walk(x)}
                     lo0 = bool(var is not None and decl0 and wr and all(y["id"] in inside and match.unop(y, ("++",)) for y in wr))
-                    if has and full and lo0:
-                        dtor_loop = True
-                    elif has:
-                        ck.violation("SV-MODE-TABLE", de.qname, mode + ":loop-range", "destructor loop does not cover [0, size)", de.nloc(x))
-                elif match.call_named(x, ("destroy", "destroy_n")) and "std" in x["callee"]["qname"]:
-                    dtor_loop = True
+                    pass
+                elif False:
+                    pass
+        # which elements get their destructor run explicitly: destroy_array(array, n) evaluated for n = 0..3
+        from engine import skel
+        BASE = 1000
+        cover = []
+        for n_ in range(4):
+            hit = []
+
+            def event(e, sk):
+                is_dtor = ("callee" in e and e["callee"]["name"].startswith("~")) or e["k"] == "CXXPseudoDestructorExpr"
+                if is_dtor and kids(e):
+                    obj = kids(e)[0]
+                    if obj["k"] == "MemberExpr" and kids(obj):
+                        obj = kids(obj)[0] if not obj.get("arrow") else {"k": "UnaryOperator", "op": "*", "id": -41, "ch": [kids(obj)[0]]}
+                    if e.get("arrow") and e["k"] == "CXXPseudoDestructorExpr":
+                        obj = {"k": "UnaryOperator", "op": "*", "id": -42, "ch": [obj]}
+                    key = sk.lvalue(obj)
+                    if not (isinstance(key, tuple) and key[0] == "mem"):
+                        a_ = sk.ev(obj)
+                        key = ("mem", a_) if isinstance(a_, int) else None
+                    hit.append(key[1] if key else None)
+                    return None
+                if "callee" in e and e["callee"]["name"] in ("destroy", "destroy_n", "destroy_at") and "std" in (e["callee"].get("qname") or ""):
+                    a_ = [sk.ev(x) for x in kids(e)]
+                    if e["callee"]["name"] == "destroy" and len(a_) == 2 and all(isinstance(x, int) for x in a_):
+                        hit.extend(range(a_[0], a_[1]))
+                    elif e["callee"]["name"] == "destroy_n" and len(a_) == 2 and all(isinstance(x, int) for x in a_):
+                        hit.extend(range(a_[0], a_[0] + a_[1]))
+                    elif e["callee"]["name"] == "destroy_at" and isinstance(a_[0], int):
+                        hit.append(a_[0])
+                    else:
+                        hit.append(None)
+                    return None
+                return NotImplemented
+            sk = skel.Skel(de, {de.params[0]["did"]: BASE, de.params[1]["did"]: n_}, None, event, max_iter=16)
+            try:
+                sk.run(kids(de.body))
+            except skel.Return:
+                pass
+            cover.append((n_, hit))
+        if any(None in h for _, h in cover):
+            raise dtable.Undecidable("%s: object of an explicit destructor call not understood" % de.loc)
+        if all(not h for _, h in cover):
+            dtor_loop = False
+        elif all(sorted(h) == list(range(BASE, BASE + n_)) for n_, h in cover):
+            dtor_loop = True
+        else:
+            n_, h = [c for c in cover if sorted(c[1]) != list(range(BASE, BASE + c[0]))][0]
+            ck.violation("SV-MODE-TABLE", de.qname, mode + ":loop-range", "destructor loop does not cover [0, size): for size %d it destroys elements %s"
+                         % (n_, [x - BASE for x in h]), de.loc)
+            continue
         pair = {"new[]": "delete[]", "operator new": "operator delete", "new": "delete"}
         sig = mode
         if len(alloc) != 1 or len(free) != 1 or pair.get(next(iter(alloc))) != next(iter(free)):
